@@ -285,6 +285,84 @@ pub fn observe(routine: &str, dir: &Path) -> Result<BTreeMap<String, String>, St
     }
 }
 
+/// One more acknowledged save of the same kind on a recovered directory: "old or new, never a
+/// broken one" includes that the store still takes the next save (a leftover of the interrupted
+/// one — a temp file, a half-written generation — must not be in its way). Returns the observed
+/// state after a further reopen.
+pub fn followup(routine: &str, dir: &Path) -> Result<(), String> {
+    let r = catch(|| -> Result<(), String> {
+        match routine {
+            "index" => {
+                let mut m = IndexManager::new(dir);
+                block_on(m.load_all()).map_err(|e| format!("load_all: {e}"))?;
+                // one key per bucket the scenarios use (k0/k1 share one, k2 has its own)
+                let extra: [[u8; 16]; 2] = [[0x11, 0, 0, 0, 0, 0, 0, 0, 0, 9, 9, 9, 9, 9, 9, 9], [0x25, 0, 0, 0, 0, 0, 0, 0, 0, 8, 8, 8, 8, 8, 8, 8]];
+                for k in &extra {
+                    m.add_entry(&EncodingKey::from_bytes(*k), 2, 64, 10).map_err(|e| format!("add_entry: {e}"))?;
+                }
+                m.save_all().map_err(|e| format!("save_all: {e}"))?;
+                let mut m2 = IndexManager::new(dir);
+                block_on(m2.load_all()).map_err(|e| format!("load_all after the next save: {e}"))?;
+                for k in &extra {
+                    if m2.lookup(&EncodingKey::from_bytes(*k)).is_none() {
+                        return Err("an entry added and saved after the recovery is not found by the next instance".into());
+                    }
+                }
+            }
+            "residency" => {
+                let path = dir.join("residency.db");
+                let mut db = if path.exists() { ResidencyDb::load(&path).map_err(|e| format!("ResidencyDb::load: {e}"))? } else { ResidencyDb::new(path.clone()) };
+                db.mark_resident(&rkey(7));
+                db.save().map_err(|e| format!("save: {e}"))?;
+                let db2 = ResidencyDb::load(&path).map_err(|e| format!("ResidencyDb::load after the next save: {e}"))?;
+                if !db2.is_resident(&rkey(7)) {
+                    return Err("a key marked and saved after the recovery is not resident for the next instance".into());
+                }
+            }
+            "lru" => {
+                let mut m = LruManager::new(3, dir.to_path_buf());
+                block_on(m.run_cycle(0, 100)).map_err(|e| format!("run_cycle: {e}"))?;
+                m.touch(&lkey(7));
+                block_on(m.checkpoint_to_disk()).map_err(|e| format!("checkpoint_to_disk: {e}"))?;
+                let mut m2 = LruManager::new(3, dir.to_path_buf());
+                block_on(m2.run_cycle(0, 100)).map_err(|e| format!("run_cycle after the next checkpoint: {e}"))?;
+                let mut found = false;
+                let mut n = 0;
+                m2.for_each_entry(|k| {
+                    n += 1;
+                    assert!(n <= 64, "for_each_entry does not terminate: the list has a cycle");
+                    if *k == lkey(7) {
+                        found = true;
+                    }
+                });
+                if !found {
+                    return Err("a key touched and checkpointed after the recovery is not in the next instance's list".into());
+                }
+            }
+            "disk" | "diskbg" => {
+                let cfg = || DiskCacheConfig::new(dir.to_path_buf()).with_default_ttl(Duration::from_secs(3600)).with_subdirectories(false, 1);
+                let c: DiskCache<SKey> = DiskCache::new(cfg()).map_err(|e| format!("DiskCache::new: {e}"))?;
+                for k in DKEYS {
+                    block_on(c.put(SKey(k.to_string()), dval("c"))).map_err(|e| format!("put({k}): {e}"))?;
+                }
+                drop(c);
+                let c2: DiskCache<SKey> = DiskCache::new(cfg()).map_err(|e| format!("DiskCache::new: {e}"))?;
+                for k in DKEYS {
+                    if block_on(c2.get(&SKey(k.to_string()))).map_err(|e| format!("get({k}): {e}"))? != Some(dval("c")) {
+                        return Err(format!("the value put for {k} after the recovery is not what the next instance reads"));
+                    }
+                }
+            }
+            _ => {}
+        }
+        Ok(())
+    });
+    match r {
+        Ok(x) => x,
+        Err(p) => Err(format!("PANIC: {p}")),
+    }
+}
+
 // ------------------------------------------------------------------ scenarios
 
 pub struct Scenario {
@@ -448,9 +526,12 @@ fn run_scenario(sc: &Scenario, rep: &Report, max_states: usize) -> Result<serde_
             let cs = &batch[i];
             let sd = Scratch::new("c06s");
             cs.image.write(&sd.path);
-            observe(sc.routine, &sd.path)
+            let o = observe(sc.routine, &sd.path);
+            // only a directory that loads is asked to take the next save
+            let f = if o.is_ok() { followup(sc.routine, &sd.path) } else { Ok(()) };
+            (o, f)
         });
-        for (cs, r) in batch.iter().zip(res) {
+        for (cs, (r, fu)) in batch.iter().zip(res) {
             total_checked += 1;
             let h = cs.image.hash();
             if h != old_img_hash && h != new_img_hash {
@@ -458,6 +539,17 @@ fn run_scenario(sc: &Scenario, rep: &Report, max_states: usize) -> Result<serde_
             }
             let at = if cs.k == 0 { "start".to_string() } else { format!("op{}:{}", cs.k - 1, op_class(&cap.ops[cs.k - 1])) };
             let ns = if cs.j == cs.k || cap.ops[cs.j.min(cs.k)..cs.k].iter().all(|o| !o.is_namespace()) { "ns-all".to_string() } else { format!("ns-lost-from:{}", op_class(&cap.ops[cs.j])) };
+            if let Err(e) = &fu {
+                let kind = "next-save-fails";
+                let sig = format!("{}|{kind}|crash-at:{at}|{ns}|data:{}", sc.routine, variant_class(cs));
+                rep.violation(
+                    kind,
+                    &sig,
+                    json!({"scenario": name, "routine": sc.routine, "pre": sc.pre, "save": sc.save, "k": cs.k, "j": cs.j, "variants": format!("{:?}", cs.variants),
+                           "ops": cap.ops.iter().map(FsOp::short).collect::<Vec<_>>()}),
+                    &format!("{name}: {} — the recovered directory loads, but the next save on it fails: {e}", cs.describe(&cap)),
+                );
+            }
             match r {
                 Err(e) => {
                     rep.add_outcome(crate::util::fnv64_str(&format!("{}|ERR", sc.routine)));
